@@ -1,13 +1,16 @@
 import AvroModel
 import AvroProofs.Lemmas.Container
 import AvroProofs.Lemmas.Truncation
+import AvroProofs.Lemmas.Frame
 /-!
 # C14 — a truncated or marker-corrupted file yields only a true prefix, then an error
 
 Statements are about the model reader's block loop (`readBlocks`) on the *body* of a file (what
 follows the header); `blocks` are well-formed blocks as the writer lays them out (`BlockOk`).
-The header part (a cut inside the header makes opening fail) is decided by the correspondence
-run: every offset of every generated file goes through both the real `Reader` and the model.
+The header part (a cut inside the header makes opening fail) is `cut_inside_header`: the header
+reader is framed (magic, metadata map through the framed datum decoder, marker), so it cannot
+succeed on a strict prefix of the bytes it consumed - for every file, every metadata layout and
+every offset inside the header.
 -/
 namespace Avro.C14
 open Avro
@@ -62,6 +65,36 @@ theorem magic_corrupt (rcfg : Cfg) (m : Bytes) (hm4 : m.length = 4) (hne : m ≠
   unfold readHeader
   rw [takeExact_append' 4 m rest hm4]
   simp [hne]
+
+/-- **cut inside the header**: if opening a file succeeds, the header is a prefix `hdr` of the file
+(`file = hdr ++ body`), opening does not depend on the body, and opening any strict prefix of `hdr`
+fails - whatever the metadata map looks like (several blocks, negative counts, unknown keys) -/
+theorem cut_inside_header (rcfg : Cfg) (fuel : Nat) (file : Bytes) (md : List (Bytes × Bytes)) (marker body : Bytes)
+    (h : readHeader rcfg fuel file = .ok (md, marker, body)) :
+    ∃ hdr, file = hdr ++ body ∧ (∀ q, readHeader rcfg fuel (hdr ++ q) = .ok (md, marker, q)) ∧
+      ∀ p q, hdr = p ++ q → q ≠ [] → ∃ e, readHeader rcfg fuel p = .error e := by
+  have hh : headerReader rcfg fuel file = .ok ((md, marker), body) := by simp [headerReader, h]
+  obtain ⟨hdr, hfile, hq⟩ := framed_headerReader rcfg fuel file (md, marker) body hh
+  have back : ∀ bs x r, headerReader rcfg fuel bs = .ok (x, r) → readHeader rcfg fuel bs = .ok (x.1, x.2, r) := by
+    intro bs x r hx
+    unfold headerReader at hx
+    cases hr : readHeader rcfg fuel bs with
+    | error e => simp [hr] at hx
+    | ok t =>
+      obtain ⟨a, b, c⟩ := t
+      simp only [hr, Except.ok.injEq, Prod.mk.injEq] at hx
+      obtain ⟨hx1, hx2⟩ := hx
+      subst hx1 hx2
+      rfl
+  refine ⟨hdr, hfile, fun q => back _ _ _ (hq q), fun p q hp hne => ?_⟩
+  have hex := hq []
+  rw [List.append_nil] at hex
+  obtain ⟨e, he⟩ := framed_prefix_error (framed_headerReader rcfg fuel) hex hp hne
+  refine ⟨e, ?_⟩
+  unfold headerReader at he
+  cases hr : readHeader rcfg fuel p with
+  | error e' => simp [hr] at he; rw [he]
+  | ok t => obtain ⟨a, b, c⟩ := t; simp [hr] at he
 
 /-- a varint cut anywhere before its last byte is an end-of-input error, never a shorter number
 (this is what makes a two-byte block count cut after its first byte an error) -/
